@@ -650,6 +650,10 @@ def sync_jobs(
     if os.path.isdir(src.path):
         if not dry_run:
             dst.init()
+        elif not os.path.isdir(dst.path):
+            # Dry run: the destination would be initialized and receive everything.
+            logger.more(f"Would initialize job '{dst}' and copy all data.")
+            return
         _sync_job_workspaces(
             src=src,
             dst=dst,
